@@ -1,7 +1,9 @@
 #!/bin/bash
 # runs every thorough tier once, sequentially, recording exit code and wall time
-export VERIF_PROCS=10
-for c in C19 C10 C13 C02 C12 C14 C06 C16 C20 C11 C18 C07 C15 C03 C04 C05 C17 C01 C08 C09; do
+export VERIF_PROCS=${VERIF_PROCS:-10}
+LIST="$*"
+[ -z "$LIST" ] && LIST="C19 C10 C13 C02 C12 C14 C06 C16 C20 C11 C18 C07 C15 C03 C04 C05 C17 C01 C08 C09"
+for c in $LIST; do
   s=$(date +%s)
   ./check $c --tier thorough > out_$c.txt 2>&1
   rc=$?
